@@ -106,4 +106,29 @@ theorem entry_lookup {s : State} (hi : Inv s) {src : Nat} {d : Device} (hd : dev
   have : ¬ src ≥ MaxBusDevices := by omega
   exact ⟨id, by simp [findBySource, this, hsi], hhd⟩
 
+/-! ## the two remaining lookups -/
+
+/-- `findLoop` over `[i, i+k)` under the invariant: a hit is an entry of that range satisfying the predicate, a miss
+    means no entry of the range satisfies it -/
+theorem findLoop_entries {s : State} (hi : Inv s) (p : Device → Bool) (k i : Nat) :
+    ∃ r, findLoop s p k i = .ok r ∧
+      (∀ id, r = some id → ∃ d, s.heap id = some d ∧ findBySource s d.source = some id ∧ p d = true ∧
+        i ≤ d.source ∧ d.source < i + k) ∧
+      (r = none → ∀ j id d, i ≤ j → j < i + k → findBySource s j = some id → s.heap id = some d → p d = false) := by
+  obtain ⟨r, hr, h1, h2⟩ := findLoop_spec hi.st p k i
+  refine ⟨r, hr, ?_, ?_⟩
+  · intro id hid
+    obtain ⟨j, d, a, b, hsj, hd, hp⟩ := h1 id hid
+    obtain ⟨d', hd', hsrc, _⟩ := devAt_some hi.st hsj
+    rw [hd] at hd'; cases hd'
+    obtain ⟨h254, _, _⟩ := hi.st.src j id hsj
+    have : ¬ j ≥ MaxBusDevices := by omega
+    exact ⟨d, hd, by rw [hsrc]; simp [findBySource, this, hsj], hp, by omega, by omega⟩
+  · intro hn j id d a b hf hd
+    unfold findBySource at hf
+    by_cases h254 : j ≥ MaxBusDevices
+    · simp [h254] at hf
+    · simp only [h254, if_false] at hf
+      exact h2 hn j d a b (by simp [devAt, hf, hd])
+
 end N2k.DeviceList
